@@ -274,4 +274,12 @@ theorem C05_isolation (inst : Instance) (a b : St) (es : List (Bool × Ev)) :
     obtain ⟨w, e⟩ := x
     cases e <;> cases w <;> simp [runPair, proj, run, ih]
 
+/-- the frame handling the no-panic results are about is that of the current tree: the message types with an arm in
+`UnixServer::parse`, each arm reading its own payload, the catch-all draining it, and a session loop that is left only
+through `break` (regenerated from server.rs on every run) -/
+theorem C05_session_shape_as_modelled :
+    ((∀ ty, (serverKind? ty).isSome = serverArmTypes.contains ty) ∧ serverArmsReadOwnPayload = true ∧ serverCatchAllDrains = true) ∧
+    (sessionOtherErrorsEnd = false ∧ sessionReturnsBeforeFailsafe = 0) :=
+  ⟨C04_parse_arms_as_modelled, C04_session_loop_as_modelled.2.1, C04_session_loop_as_modelled.2.2.2.2.1⟩
+
 end Glonax.Thm.C05
